@@ -295,7 +295,9 @@ theorem skipF_posCounts (rules : List Rule) (e : Expr) (h : posCounts e = true) 
   · split
     · rename_i x hx
       obtain ⟨l, rfl⟩ := populateChoices_skip rules _ _ _ x hx
-      rfl
+      split
+      · exact h
+      · rfl
     · exact h
   · exact h
 
